@@ -37,6 +37,9 @@ type Result struct {
 	// Undecided: the input uses something the oracle does not take a side on (invalid
 	// UTF-8, \uD800–\uDFFF escapes).
 	Undecided bool
+	// ValuesOnly: Undecided only because a string value is not taken a side on (surrogate escapes); kinds, extents
+	// and positions of all tokens are decided.
+	ValuesOnly bool
 	EOFPos    int // character offset of end of input
 	NChars    int
 }
@@ -115,6 +118,7 @@ func Lex(input string, d Defects) Result {
 		kind, end, val, ok, undecided := match(rs, pos, d)
 		if undecided {
 			res.Undecided = true
+			res.ValuesOnly = !invalid
 		}
 		if !ok {
 			res.FailAt = len(res.Tokens)
